@@ -20,6 +20,8 @@ VERIF = os.path.dirname(os.path.dirname(os.path.abspath(__file__)))
 REPO = os.environ.get("VERIF_REPO", "/repo")
 SRC = os.path.join(REPO, "src")
 PY = os.path.join(VERIF, ".venv", "bin", "python")
+if not os.path.exists(PY):
+    PY = "/verif/.venv/bin/python"
 EXIT_OK, EXIT_VIOLATION, EXIT_INCONCLUSIVE = 0, 1, 3
 
 
